@@ -8,16 +8,27 @@ Tie
       lfilter   scipy.signal.lfilter vs the model's transposed direct-form-II recursion
       srs       srs.srs(getresp=True, rolloff='none', parallel='no') over the full
                 stype x ic x peak x time x eqsine grid vs the model pipeline (history + spectrum)
-      rolloff   srs.srs(rolloff=linear|lanczos|fft|prefilter) vs model fed with the output of the
-                real roll function (the resampler's own contract is C19)
+      rolloff   srs.srs(rolloff=linear|lanczos|fft|prefilter, ppc varied) vs the model `srsRolled`, which
+                itself decides whether / by which factor to resample; only the resampled values come
+                from the real roll function (the resampler's own contract is C19)
+      index     EXACT: resp['sr'], len(hist), resp['t'][0], resp['t'][-1] vs the model's M, N, S over a
+                (rolloff, time, N incl. 1 and 2, sr, freq, ppc, ic) grid incl. sr/max(freq) == ppc and
+                one ulp either side, 0 Hz only, prefilter on <= 12 samples (raises)
       errors    empty record / empty residual window raise <-> model `none`
       exact     model closed-form oscillator stepping vs srs.srs histories (numerical shadow of
-                theorem ramp_invariant)
+                theorem ramp_invariant);  exact0: the same for the rigid oscillator (0 Hz);
+                steady: closed form started in steady state vs ic='steady' histories;
+                resid: closed-form free decay vs time='residual' histories
+      xcol      the filter-free specification `exactCol` (closed form + ic rule + appended cycle +
+                window + peak) vs srs.srs over the full option grid (shadow of
+                srs_column_is_exact_response_peak);  xcol0: likewise `exactCol0` at 0 Hz
       vrs       srs.vrs on uniform / log / random grids, with and without off-grid Fn, vs the model's
-                area weights and transmissibility (psd.interp's output fed to both sides)
+                area weights and transmissibility (psd.interp's output fed to both sides); merged grid
+                np.unique(hstack(freq, Fn)) exactly; Miles' value
 Oracle (model-free): exact oscillator response by an augmented-matrix exponential
 (scipy.linalg.expm, dimensionless time) under each initial-condition rule, window and peak
-statistic; spectrum relations; srs_frf / vrs / Miles closed forms.
+statistic; roll-off decision and factor in exact rational arithmetic; spectrum relations;
+srs_frf / vrs / Miles closed forms.
 """
 import math
 import struct
@@ -27,7 +38,7 @@ import numpy as np
 from runner import TieBroken
 
 ID = "C03"
-LEAN_MODULES = ["PyYetiVerif.Props.C03", "PyYetiVerif.Audit.C03"]
+LEAN_MODULES = ["PyYetiVerif.Props.C03", "PyYetiVerif.Props.C03b", "PyYetiVerif.Props.C03c", "PyYetiVerif.Audit.C03"]
 AUDIT_FILE = "PyYetiVerif/Audit/C03.lean"
 THEOREMS = [
     "PyYetiVerif.C03." + n
@@ -36,7 +47,16 @@ THEOREMS = [
         "exact_step_affine a_coeffs_are_charpoly ramp_invariant ramp_invariant_absacce "
         "ramp_invariant_reldisp pvelo_eq pacce_eq dc_gain suma_pos steady_addback_is_dc_gain "
         "lfilter_scale lfilter_add lfilter_append_take peak_abs_eq_max_pos_neg peak_total_ge "
-        "eqsine_eq column_permutation window_lengths nzeros_eq vrs_quadrature_is_trapezoid_plus_half_end_cells"
+        "eqsine_eq column_permutation window_lengths nzeros_eq vrs_quadrature_is_trapezoid_plus_half_end_cells "
+        # Props/C03b.lean
+        "steady_state_fixed steady_response_values steady_ic_exact shift_ic_exact srs_column_is_exact_response_peak "
+        "free_decay_solves_ode residual_is_free_decay srs_residual_is_free_decay_peak rigid_solves_ode ramp_invariant_rigid "
+        "rigid_response_values rolloff_triggers_iff rolloff_factor_ge_two rolloff_meets_ppc rolloff_step_triggered "
+        "rolloff_step_untouched rolloff_index_values rolloff_indices residual_starts_at_record_end vrs_grid_sorted "
+        "vrs_grid_mem vrs_weights vrs_gain_is_normSq_H vrs_is_quadrature_of_H2_psd vrs_needs_two_points srs_frf_gain_is_H "
+        "rolloff_linear_grid_consistent_iff srs_column_zero_hz_is_rigid_response_peak "
+        # Props/C03c.lean
+        "miles_integrand_is_normSq miles_white_noise_integral miles_is_white_noise_integral"
     ).split()
 ]
 TRUSTED = [
@@ -44,48 +64,78 @@ TRUSTED = [
     "correspondence harness harness/props/c03.py; Lean Float = IEEE double through the C library",
     "scipy.signal.lfilter modelled as the order<=2 transposed direct-form-II recursion with zero state (measured every run)",
     "theorems are over the reals: round-off of the recursion is measured, not proved (conditioning domain sr/fn <= 2000)",
-    "roll-off resamplers (dsp.resample, scipy.signal.resample, filtfilt, interp1d) are not modelled: their output is fed to both sides (contract: C19)",
-    "srs_frf and Miles closed forms are checked by the oracle only; vrs: quadrature weights and transmissibility are modelled "
-    "(correspondence) and the weights are proved to be trapezoid + half end cells; psd.interp is fed to both sides",
+    "roll-off: the decision, the factor, the new rate and the new lengths are modelled (exact index stream); the resampled "
+    "VALUES (dsp.resample, scipy.signal.resample, filtfilt, interp1d) are not modelled: the real output is fed to the model "
+    "(contract: C19); the lengths N*factor-1 / factor*(N - N%2) / N*factor are measured by the index stream",
+    "vrs: merged grid, quadrature weights, transmissibility and Miles' formula are modelled and tied; psd.interp is fed to both "
+    "sides; srs_frf: the transfer function identity is proved, the routine itself (frequency merging, interpolation, max) is "
+    "checked by the oracle only",
 ]
 RULE = (
     "coef: seeded (Q, sr, fn) with Q in (0.5, 200], sr/fn log-uniform in [2.05, 2000] plus wn = 0, six stypes; "
     "lfilter: random stable filters of order 0-2 and the SRS coefficient sets on random records (incl. empty); "
-    "srs: every stype x ic x peak x time x eqsine combination (864) per round with a seeded record "
+    "srs / xcol: every stype x ic x peak x time x eqsine combination (864) per round with a seeded record "
     "(1-60 samples, 1-3 columns, 1-D packaging, 1-3 frequencies incl. 0 Hz where defined), one case = one "
-    "srs.srs call compared on all histories and spectrum values; rolloff: the four resamplers, triggered and "
-    "not triggered; non-trivial = the response history is not identically zero; distinct by the full input"
+    "srs.srs call compared on all histories and spectrum values; rolloff: the four resamplers, ppc in {8, 10.5, 12, 20}, "
+    "triggered and not triggered, records of 2-128 samples; index: 5 rolloff x 3 time x 9-11 lengths (1, 2, ...) x 13 "
+    "(sr, freq, ppc) configurations (boundary sr/max(freq) = ppc, one ulp below/above, 0 Hz, several ppc); "
+    "exact0/steady/resid: six stypes x seeded records; non-trivial = the response history is not identically zero; "
+    "distinct by the full input"
 )
 ASSUMPTIONS = [
     "sr/fn <= 2000 and Q > 0.5 (the property's conditioning domain); inputs outside are not generated",
-    "numeric agreement |impl - model| <= 1e-9 * scale (scale = largest magnitude in the history incl. add-back); "
-    "coefficients <= 1e-12 * (sum of magnitudes of the added terms)",
+    "numeric agreement |impl - model| <= 1e-9 * scale (scale = largest magnitude in the history incl. add-back) for "
+    "filter-vs-filter streams, 1e-7 * scale for closed-form-vs-filter streams (exact, steady, resid, xcol); "
+    "coefficients <= 1e-12 * (sum of magnitudes of the added terms); index stream: exact",
     "ic='steady' with a 0 Hz oscillator and stype reldisp/pvelo divides by zero in the code (inf/nan): skipped and counted",
+    "rolloff='prefilter' on a record of <= 12 samples raises ValueError inside scipy.signal.filtfilt (padlen): modelled as "
+    "the error case, not counted as a failure",
+    "peak='rms' on an empty residual window returns nan with a RuntimeWarning instead of raising: the model's error case "
+    "covers it (index/errors streams use peak='abs')",
 ]
 PARTIAL = (
-    "full for the time-domain srs path with rolloff='none'; not proved (oracle/correspondence only): "
-    "round-off of the recursion, the four roll-off resamplers, srs_frf/vrs/Miles closed forms, rms peak statistics relations; "
-    "missing (stretch): the ic='steady' statement 'response to sig - s1 plus add-back = exact response to sig started in steady "
-    "state' is proved only at the level of the gains (dc_gain, steady_addback_is_dc_gain) - the oracle simulates it directly; "
-    "ramp_invariant covers wn > 0 (the wn = 0 coefficient branches are translated and correspondence-checked, not proved exact)"
+    "time-domain srs path: full for rolloff='none' and f > 0 (srs_column_is_exact_response_peak: every stype x ic x peak x "
+    "time x eqsine; steady_ic_exact, shift_ic_exact, residual_is_free_decay), wn = 0 coefficient branches proved exact for the "
+    "rigid oscillator and the whole 0 Hz column for ic other than 'steady' (ramp_invariant_rigid, "
+    "srs_column_zero_hz_is_rigid_response_peak; ic='steady' has no steady state at 0 Hz - what the code returns there is tied by "
+    "correspondence only and lies outside the property's domain sr/fn <= 2000); roll-off: decision, factor, new rate, M/N/S and the residual start are proved for ANY resampler of the "
+    "stated output length (rolloff_indices, residual_starts_at_record_end), the resampled values are not modelled (C19) - "
+    "finding srs-rolloff-linear (factor >= 3) is stated as rolloff_linear_grid_consistent_iff; vrs: merged grid, weights, "
+    "|H|^2, quadrature proved (vrs_is_quadrature_of_H2_psd), Miles proved equal to the white-noise integral through the "
+    "pseudo-acceleration transmissibility (miles_is_white_noise_integral; the (1 + 1/Q^2) factor of the absolute-acceleration "
+    "integral is stated in prose only); not proved (oracle/correspondence only): round-off of the recursion, srs_frf's "
+    "frequency merging / interpolation / maximisation (only its transfer function srs_frf_gain_is_H), psd.interp, rms peak "
+    "relations"
 )
 MANIFEST = {
     "level_text": "Proof (Lean 4, kernel-checked, standard axioms only): the six coefficient functions of srs.py are "
-    "machine-translated into Lean on every run and proved equal to the model; over the reals, for Q > 1/2, dT > 0, wn > 0, "
-    "for every response type and every input record, lfilter with the code's (b, a) returns exactly the closed-form "
-    "response of the damped oscillator to the linearly interpolated input started at rest one sample before the record "
-    "(ramp_invariant; the closed form is proved to solve the ODE), a = [1, -2C, E^2] is the characteristic polynomial of "
-    "the exact one-step matrix, b_pvelo = wn b_reldisp, b_pacce = wn^2 b_reldisp, sum(b) = gain * sum(a) with the gains the "
-    "steady-state add-back uses, lfilter is linear and causal, abs = max(pos, neg), total >= primary/residual, "
-    "eqsine divides by Q, column permutation invariance, window lengths N / N + ceil(sr/minf) / ceil(sr/minf). "
-    "The model pipeline (ic rules, zero padding, windows, peak selectors, add-back) is tied to srs.srs by numeric "
-    "correspondence over the full option grid.",
+    "machine-translated into Lean on every run and proved equal to the model; over the reals, for Q > 1/2, sr > 0, f > 0, "
+    "for every response type, initial-condition rule, peak rule, time window and eqsine flag, the history and the spectrum value "
+    "that the model of srs.srs (rolloff='none') produces equal a filter-free specification: the closed-form response of the damped "
+    "oscillator to the linearly interpolated record (proved to solve the ODE), started at rest one sample before the record "
+    "('zero', 'shift', 'mshift' on the shifted record) or in steady state under sig[0] ('steady', incl. the add-back per "
+    "response type), continued with zero input over ceil(sr/minf) appended samples, cut to primary [0,N) / total / residual "
+    "[N, N+nz) and reduced by the stated peak statistic (srs_column_is_exact_response_peak); the residual window is the "
+    "closed-form free decay sampled on the grid (residual_is_free_decay); the wn = 0 branches are exact for u'' = -x(t) "
+    "(ramp_invariant_rigid) and the 0 Hz column equals the rigid specification for every ic except 'steady' "
+    "(srs_column_zero_hz_is_rigid_response_peak); a = [1, -2C, E^2] is the characteristic polynomial of the exact one-step matrix, b_pvelo = wn "
+    "b_reldisp, b_pacce = wn^2 b_reldisp, lfilter linear and causal, abs = max(pos, neg), total >= primary/residual, eqsine "
+    "divides by Q, column permutation invariance; roll-off: resampling happens iff the method resamples, max(freq) != 0 and "
+    "sr/max(freq) < ppc (strict), the factor ceil(ppc/(sr/mf)) is >= 2 and meets ppc, and for any resampler of the stated output "
+    "length M, N, S and resp['t'] refer to the resampled record (rolloff_indices); vrs: the merged grid is the sorted union, the "
+    "weights are the stated vector, the gain is |H|^2 of the complex transmissibility, z_vrs is sqrt(trapezoid + half end cells) "
+    "on any grid; srs_frf's transfer function equals H; Miles' value equals sqrt(W * integral_0^inf |H_pa|^2 df) "
+    "(improper integral evaluated in Lean). The model pipeline is tied to srs.srs by numeric correspondence over the full "
+    "option grid and by an exact index correspondence for the roll-off / window bookkeeping.",
     "level_note": "Trusted: Lean kernel; propext, Classical.choice, Quot.sound; the translator and the Python harness; "
     "scipy.signal.lfilter as modelled (measured). Real-number theorems: floating-point round-off is measured by the "
-    "correspondence check and the model-free oracle inside sr/fn <= 2000. Roll-off resamplers, srs_frf, vrs and Miles are "
-    "checked by the oracle only.",
+    "correspondence check and the model-free oracle inside sr/fn <= 2000. Only tied/measured, not proved: the resampled "
+    "values of the four roll-off methods (fed to the model; contract C19), psd.interp, srs_frf's grid merging/interpolation/"
+    "maximum, ic='steady' at 0 Hz. Open finding reported by the oracle: rolloff='linear' with "
+    "factor >= 3 (linroll's np.linspace(0, t_last, N*factor-1) grid is not spaced 1/(sr*factor)).",
     "technique": "Lean 4 proof (Cayley-Hamilton elimination of the exact state recursion into the filter; sympy-found "
-    "linear_combination certificates checked by the kernel) + source->Lean translator + numeric differential correspondence",
+    "linear_combination certificates checked by the kernel; explicit antiderivative for Miles) + source->Lean translator + "
+    "numeric and exact differential correspondence",
 }
 
 STYPES = ["absacce", "relacce", "reldisp", "relvelo", "pvelo", "pacce"]
@@ -188,9 +238,9 @@ def _srs_requests(opts, Q, sr, freqs, sig2d):
     return out
 
 
-def _call_srs(srs, sig, sr, freqs, Q, st, ic, pk, tm, es, rolloff="none"):
+def _call_srs(srs, sig, sr, freqs, Q, st, ic, pk, tm, es, rolloff="none", ppc=12):
     try:
-        sh, resp = srs.srs(sig, sr, freqs, Q, ic=ic, stype=st, peak=pk, ppc=12, rolloff=rolloff,
+        sh, resp = srs.srs(sig, sr, freqs, Q, ic=ic, stype=st, peak=pk, ppc=ppc, rolloff=rolloff,
                            eqsine=es, time=tm, getresp=True, parallel="no")
     except (ValueError, IndexError) as e:
         return ("raise", type(e).__name__)
@@ -265,9 +315,12 @@ def _cmp_hist(ctx, stream, inp, impl, replies, keys, extra_scale=0.0, tol=1e-9, 
     return nontriv
 
 
-def _case_dict(sig, sr, freqs, Q, st, ic, pk, tm, es, rolloff="none"):
-    return {"kind": "srs", "sig": np.asarray(sig).tolist(), "sr": sr, "freq": [float(f) for f in freqs], "Q": Q,
-            "stype": st, "ic": ic, "peak": pk, "time": tm, "eqsine": bool(es), "rolloff": rolloff}
+def _case_dict(sig, sr, freqs, Q, st, ic, pk, tm, es, rolloff="none", ppc=12):
+    d = {"kind": "srs", "sig": np.asarray(sig).tolist(), "sr": sr, "freq": [float(f) for f in freqs], "Q": Q,
+         "stype": st, "ic": ic, "peak": pk, "time": tm, "eqsine": bool(es), "rolloff": rolloff}
+    if ppc != 12:
+        d["ppc"] = ppc
+    return d
 
 
 def correspondence(ctx):
@@ -427,8 +480,10 @@ def correspondence(ctx):
 
             add([l for _, l in pairs], cb)
 
-    # ---- stream rolloff ---------------------------------------------------------------------
-    nroll = ctx.pick(9, 45)
+    # ---- stream rolloff (the Lean model `srsRolled` decides whether and by which factor to resample; the
+    # real resampler's output is supplied and used by the model only if it decides to resample) ------------
+    nroll = ctx.pick(18, 60)
+    rollfun = {"linear": srs.linroll, "lanczos": srs.lanroll, "fft": srs.fftroll, "prefilter": srs.preroll}
     for roll in ROLLS:
         for i in range(nroll):
             st = STYPES[int(rng.integers(0, 6))]
@@ -438,29 +493,27 @@ def correspondence(ctx):
             es = bool(rng.integers(0, 2))
             Q = float(rng.choice([5.0, 10.0, 25.0, 50.0]))
             sr = float(rng.choice([200.0, 1000.0, 2048.0]))
+            ppc = float(rng.choice([12.0, 12.0, 8.0, 20.0, 10.5]))
             trig = i % 3 != 2
-            mf = sr / (rng.uniform(2.5, 11.0) if trig else rng.uniform(12.5, 40.0))
+            mf = sr / (rng.uniform(0.21, 0.92) * ppc if trig else rng.uniform(1.05, 3.3) * ppc)
             freqs = sorted({mf, mf * 0.5, mf * float(rng.uniform(0.1, 0.9))})[: int(rng.integers(1, 4))]
             if mf not in freqs:
                 freqs.append(mf)
-            n = int(rng.choice([40, 64, 97, 128]))
+            n = int(rng.choice([40, 64, 97, 128, 13, 14] if roll == "prefilter" else [40, 64, 97, 128, 2, 3, 13]))
             H = int(rng.integers(1, 3))
             sig2d = _rand_sig(rng, n, H)
-            impl = _call_srs(srs, sig2d, sr, freqs, Q, st, ic, pk, tm, es, rolloff=roll)
-            # the real code's own pre-processing and resampler feed the model
-            sg, s1, doic, icvals = srs._process_ic(sig2d, ic, st)
-            sr2 = sr
-            if roll == "prefilter":
-                sg, sr2 = srs.preroll(sg, sr, 12, max(freqs))
-            elif sr / max(freqs) < 12:
-                sg, sr2 = {"linear": srs.linroll, "lanczos": srs.lanroll, "fft": srs.fftroll}[roll](sg, sr, 12, max(freqs))
-            sg = np.asarray(sg, float)
-            head = "tail %s %s %s %s %d %s %s %d %s" % (st, ic, pk, tm, 1 if es else 0, _bits(Q), _bits(sr2), len(freqs), _fl(freqs))
+            impl = _call_srs(srs, sig2d, sr, freqs, Q, st, ic, pk, tm, es, rolloff=roll, ppc=ppc)
+            sg = srs._process_ic(sig2d, ic, st)[0]
+            try:
+                ups = np.asarray(rollfun[roll](sg, sr, ppc, max(freqs))[0], float)
+            except Exception:  # a mutated resampler may raise: the model then sees the un-resampled record
+                ups = np.asarray(sg, float)
+            head = "rolled %s %s %s %s %d %s %s %s %s %d %s" % (st, ic, pk, tm, 1 if es else 0, roll, _bits(ppc), _bits(Q),
+                                                                _bits(sr), len(freqs), _fl(freqs))
             lines, keys = [], []
             for j, f in enumerate(freqs):
                 for c in range(H):
-                    lines.append("%s %s %s %d %s %s" % (head, _bits(f), _bits(s1[c]), 1 if doic else 0,
-                                                        _bits(icvals[c] if doic else 0.0), _fl(sg[:, c])))
+                    lines.append("%s %s %d %s %s" % (head, _bits(f), n, _fl(sig2d[:, c]), _fl(ups[:, c])))
                     keys.append((j, c))
             wmin = min(2 * math.pi * f for f in freqs)
             s1max = float(np.max(np.abs(sig2d[0])))
@@ -468,18 +521,63 @@ def correspondence(ctx):
 
             fl = _floors(st, sig2d, sr, freqs, Q, es)
 
-            def cb(reps, impl=impl, keys=keys, roll=roll, trig=trig, sr2=sr2, st=st, ic=ic, pk=pk, tm=tm, es=es, Q=Q, sr=sr,
-                   freqs=freqs, sig2d=sig2d, addb=addb, fl=fl):
-                inp = _case_dict(sig2d, sr, freqs, Q, st, ic, pk, tm, es, rolloff=roll)
-                if impl[0] == "ok" and impl[3] != sr2:
-                    ctx.disagree("rolloff", inp, {"sr": impl[3]}, {"sr": sr2})
+            def cb(reps, impl=impl, keys=keys, roll=roll, trig=trig, st=st, ic=ic, pk=pk, tm=tm, es=es, Q=Q, sr=sr,
+                   freqs=freqs, sig2d=sig2d, addb=addb, fl=fl, ppc=ppc):
+                inp = _case_dict(sig2d, sr, freqs, Q, st, ic, pk, tm, es, rolloff=roll, ppc=ppc)
                 nt = _cmp_hist(ctx, "rolloff", inp, impl, reps, keys, extra_scale=addb / (Q if es else 1.0), floors=fl)
-                ctx.case(("roll", roll, st, ic, pk, tm, es, Q, sr, tuple(freqs), sig2d.tobytes()), nontrivial=nt,
+                ctx.case(("roll", roll, st, ic, pk, tm, es, Q, sr, ppc, tuple(freqs), sig2d.tobytes()), nontrivial=nt,
                          branch="rolloff:%s:%s" % (roll, "resampled" if (trig or roll == "prefilter") else "not-needed"))
                 if trig or roll == "prefilter":
                     ctx.count("rolloff:%s:resampled:%s" % (roll, tm))
 
             add(lines, cb)
+
+    # ---- stream index (exact): M, N, S, resp['sr'], resp['t'] over (roll, time, N, sr, freq, ppc, ic) -------------
+    idx_cfgs = [  # (sr, freqs, ppc, tag)
+        (100.0, [20.0, 5.0], 12.0, "triggered"), (100.0, [25.0], 12.0, "triggered"), (120.0, [10.0, 2.5], 12.0, "boundary-eq"),
+        (120.0, [10.000000000000002], 12.0, "triggered"), (120.0, [9.999999999999998, 3.0], 12.0, "not-needed"),
+        (1000.0, [30.0, 7.0], 12.0, "not-needed"), (1000.0, [300.0, 40.0, 0.0], 12.5, "triggered"), (50.0, [0.0], 12.0, "no-positive-freq"),
+        (200.0, [0.0, 45.0], 4.0, "not-needed"), (200.0, [45.0, 11.0], 25.0, "triggered"), (48.0, [12.0, 1.0], 4.0, "boundary-eq"),
+        (48.0, [12.0, 0.7], 4.5, "triggered"), (4096.0, [1000.0, 3.3], 10.0, "triggered"),
+    ]
+    idx_ns = [1, 2, 3, 4, 5, 12, 13, 14, 31] + ([64, 65] if ctx.thorough else [])
+    for roll in ["none"] + ROLLS:
+        for ti, tm in enumerate(TIMES):
+            for n in idx_ns:
+                for ci, (sr, freqs, ppc, tag) in enumerate(idx_cfgs):
+                    if not ctx.thorough and (ci + n + ti) % 3 == 0 and n > 5:
+                        continue
+                    ic = ICS[(ci + n) % 4]
+                    sig = _rand_sig(rng, n, 1)[:, 0]
+                    impl = _call_srs(srs, sig, sr, freqs, 10.0, "absacce", ic, "abs", tm, False, rolloff=roll, ppc=ppc)
+                    line = "idx %s %s %s %s %d %s %d" % (roll, tm, _bits(ppc), _bits(sr), len(freqs), _fl(freqs), n)
+
+                    def cb(reps, impl=impl, roll=roll, tm=tm, n=n, sr=sr, freqs=freqs, ppc=ppc, tag=tag, ic=ic, sig=sig):
+                        inp = _case_dict(sig, sr, freqs, 10.0, "absacce", ic, "abs", tm, False, rolloff=roll, ppc=ppc)
+                        resamples = roll in ("linear", "fft", "lanczos")
+                        ctx.case(("idx", roll, tm, n, sr, tuple(freqs), ppc), nontrivial=True,
+                                 branch="index:%s:%s:%s" % (roll, tag if resamples else "no-resampler", tm))
+                        ctx.count("index:N=%s" % (n if n <= 2 else ">2"))
+                        rep = reps[0]
+                        if impl[0] == "raise":
+                            ctx.count("index:raises")
+                            if rep != "none" and rep.split()[-1] != "0":
+                                ctx.disagree("index", inp, "raises " + impl[1], rep)
+                            return
+                        if rep in ("none", "bad-op") or len(rep.split()) != 6:
+                            ctx.disagree("index", inp, {"hist_len": int(impl[2].shape[0])}, rep)
+                            return
+                        tk = rep.split()
+                        msr, mM, mN, mS, mfirst, mcount = _unbits(tk[0]), int(tk[1]), int(tk[2]), int(tk[3]), int(tk[4]), int(tk[5])
+                        hist, sr_out, tvec = impl[2], impl[3], impl[4]
+                        obs = {"sr": sr_out, "hist_len": int(hist.shape[0]), "t_len": int(tvec.shape[0]),
+                               "t0": float(tvec[0]) if tvec.size else None, "t_last": float(tvec[-1]) if tvec.size else None}
+                        want = {"sr": msr, "hist_len": mcount, "t_len": mcount, "t0": mfirst / msr if mcount else None,
+                                "t_last": (mfirst + mcount - 1) / msr if mcount else None}
+                        if obs != want or mN - mS != mcount or mfirst != mS:
+                            ctx.disagree("index", inp, obs, dict(want, M=mM, N=mN, S=mS))
+
+                    add([line], cb)
 
     # ---- stream errors -----------------------------------------------------------------------
     for st, ic, tm, sig, freqs, why in (
@@ -533,6 +631,160 @@ def correspondence(ctx):
 
             add([line], cb)
 
+    # ---- stream exact0 (rigid oscillator closed form, wn = 0) vs the code's 0 Hz histories -----------------
+    for st in STYPES:
+        for i in range(ctx.pick(6, 30)):
+            sr = float(np.exp(rng.uniform(np.log(10.0), np.log(1e4))))
+            n = int(rng.choice([1, 2, 5, 40, 150]))
+            sig = _rand_sig(rng, n, 1)[:, 0]
+            Q = float(rng.choice([0.6, 5.0, 10.0, 50.0]))
+            impl = _call_srs(srs, sig, sr, [0.0], Q, st, "zero", "abs", "primary", False)
+            line = "exact0 %s %s %s %s" % (st, _bits(Q), _bits(1 / sr), _fl(sig))
+
+            def cb(reps, impl=impl, st=st, Q=Q, sr=sr, sig=sig, n=n):
+                inp = _case_dict(sig, sr, [0.0], Q, st, "zero", "abs", "primary", False)
+                ctx.case(("exact0", st, Q, sr, sig.tobytes()), nontrivial=st in ("reldisp", "relvelo", "relacce"), branch="exact0:" + st)
+                if impl[0] != "ok":
+                    ctx.disagree("exact0", inp, impl, reps[0][:60])
+                    return
+                m = _parse(reps[0])
+                ih = impl[2][:, 0, 0]
+                amp = float(np.max(np.abs(sig)))
+                scale = max(amp * {"reldisp": (n / sr) ** 2, "relvelo": n / sr}.get(st, 1.0), 1e-300)
+                if m.shape != ih.shape or not np.all(np.isfinite(m)):
+                    ctx.disagree("exact0", inp, ih.tolist()[:6], m.tolist()[:6])
+                    return
+                _room(ctx, "exact0", np.max(np.abs(m - ih)) / (1e-9 * scale))
+                if np.max(np.abs(m - ih)) > 1e-9 * scale:
+                    ctx.disagree("exact0", inp, ih.tolist()[:6], m.tolist()[:6])
+
+            add([line], cb)
+
+    # ---- stream steady (closed form started in steady state under s1) vs ic='steady' histories ----------------
+    for st in STYPES:
+        for i in range(ctx.pick(10, 60)):
+            Q, sr, fn = _rand_params(rng, hi=300.0)
+            n = int(rng.choice([1, 3, 10, 40, 120]))
+            sig = _rand_sig(rng, n, 1)[:, 0] + float(rng.uniform(-5, 5))
+            impl = _call_srs(srs, sig, sr, [fn], Q, st, "steady", "abs", "primary", False)
+            wn = 2 * math.pi * fn
+            line = "steady %s %s %s %s %s %s" % (st, _bits(Q), _bits(1 / sr), _bits(wn), _bits(sig[0]), _fl(sig))
+
+            def cb(reps, impl=impl, st=st, Q=Q, sr=sr, fn=fn, sig=sig, wn=wn):
+                inp = _case_dict(sig, sr, [fn], Q, st, "steady", "abs", "primary", False)
+                ctx.case(("steady", st, Q, sr, fn, sig.tobytes()), nontrivial=True, branch="steady:" + st)
+                if impl[0] != "ok":
+                    ctx.disagree("steady", inp, impl, reps[0][:60])
+                    return
+                m = _parse(reps[0])
+                ih = impl[2][:, 0, 0]
+                G = {"reldisp": 1 / wn ** 2, "pvelo": 1 / wn, "relvelo": 1 / wn}.get(st, 1.0)
+                scale = max(float(np.max(np.abs(ih))), 2 * float(np.max(np.abs(sig))) * G, 1e-300)
+                if m.shape != ih.shape or not np.all(np.isfinite(m)):
+                    ctx.disagree("steady", inp, ih.tolist()[:6], m.tolist()[:6])
+                    return
+                _room(ctx, "steady", np.max(np.abs(m - ih)) / (1e-7 * scale))
+                if np.max(np.abs(m - ih)) > 1e-7 * scale:
+                    ctx.disagree("steady", inp, ih.tolist()[:6], m.tolist()[:6])
+
+            add([line], cb)
+
+    # ---- stream xcol (the filter-free specification exactCol: closed-form oscillator, ic rule, appended cycle,
+    # window, peak) vs srs.srs over the full option grid ------------------------------------------------------------
+    for rnd in range(ctx.pick(1, 3)):
+        for ci, (st, ic, pk, tm, es) in enumerate(combos):
+            Q, sr, fn = _rand_params(rng, hi=300.0)
+            freqs = [fn] if rng.random() < 0.5 else [fn, min(sr / 2.05, fn * float(rng.uniform(1.1, 3.0)))]
+            n = int(rng.choice([1, 2, 3, 7, 20, 60]))
+            sig = _rand_sig(rng, n, 1)[:, 0]
+            impl = _call_srs(srs, sig, sr, freqs, Q, st, ic, pk, tm, es)
+            head = "xcol %s %s %s %s %d %s %s %d %s" % (st, ic, pk, tm, 1 if es else 0, _bits(Q), _bits(sr), len(freqs), _fl(freqs))
+            lines = ["%s %s %s" % (head, _bits(f), _fl(sig)) for f in freqs]
+            keys = [(j, 0) for j in range(len(freqs))]
+            wmin = min(2 * math.pi * f for f in freqs)
+            addb = {"reldisp": abs(sig[0]) / wmin ** 2, "pvelo": abs(sig[0]) / wmin}.get(st, abs(sig[0])) if ic == "steady" else 0.0
+            fl = _floors(st, sig.reshape(-1, 1), sr, freqs, Q, es)
+
+            def cb(reps, impl=impl, keys=keys, st=st, ic=ic, pk=pk, tm=tm, es=es, Q=Q, sr=sr, freqs=freqs, sig=sig, addb=addb, fl=fl):
+                inp = _case_dict(sig, sr, freqs, Q, st, ic, pk, tm, es)
+                nt = _cmp_hist(ctx, "xcol", inp, impl, reps, keys, extra_scale=addb / (Q if es else 1.0), tol=1e-7, floors=fl)
+                ctx.case(("xcol", st, ic, pk, tm, es, Q, sr, tuple(freqs), sig.tobytes()), nontrivial=nt)
+                for br in ("xcol:stype:" + st, "xcol:ic:" + ic, "xcol:time:" + tm, "xcol:peak:" + pk):
+                    ctx.count(br)
+
+            add(lines, cb)
+
+    # ---- stream xcol0 (0 Hz specification exactCol0: rigid closed form, ic rule, appended cycle, window, peak) -------
+    for ci, (st, ic, pk, tm, es) in enumerate(combos):
+        if ic == "steady" or (ci % 2 and not ctx.thorough):
+            continue
+        sr = float(np.exp(rng.uniform(np.log(10.0), np.log(1e4))))
+        Q = float(rng.choice([0.6, 5.0, 10.0, 50.0]))
+        other = sr / float(rng.uniform(4.0, 60.0))
+        freqs = [0.0, other] if ci % 3 else [other, 0.0, other * 0.4]
+        n = int(rng.choice([1, 2, 3, 7, 20, 60]))
+        sig = _rand_sig(rng, n, 1)[:, 0]
+        impl = _call_srs(srs, sig, sr, freqs, Q, st, ic, pk, tm, es)
+        j0 = freqs.index(0.0)
+        line = "xcol0 %s %s %s %s %d %s %s %d %s %s" % (st, ic, pk, tm, 1 if es else 0, _bits(Q), _bits(sr), len(freqs), _fl(freqs), _fl(sig))
+        nall = n + int(math.ceil(sr / min(f for f in freqs if f > 0)))
+        amp = float(np.max(np.abs(sig)))
+        fl0 = 2 * amp * {"reldisp": (nall / sr) ** 2, "relvelo": nall / sr}.get(st, 1.0) / (Q if es else 1.0)
+
+        def cb(reps, impl=impl, j0=j0, st=st, ic=ic, pk=pk, tm=tm, es=es, Q=Q, sr=sr, freqs=freqs, sig=sig, fl0=fl0):
+            inp = _case_dict(sig, sr, freqs, Q, st, ic, pk, tm, es)
+            ctx.case(("xcol0", st, ic, pk, tm, es, Q, sr, tuple(freqs), sig.tobytes()), nontrivial=st in ("reldisp", "relvelo", "relacce"),
+                     branch="xcol0:" + st)
+            ctx.count("xcol0:time:" + tm)
+            if impl[0] != "ok":
+                ctx.disagree("xcol0", inp, impl, reps[0][:60])
+                return
+            if reps[0] in ("none", "bad-op"):
+                ctx.disagree("xcol0", inp, {"sh": float(impl[1][j0, 0])}, reps[0])
+                return
+            m = _parse(reps[0])
+            ih = impl[2][:, 0, j0]
+            if m[1:].shape != ih.shape or not np.all(np.isfinite(m)):
+                ctx.disagree("xcol0", inp, {"hist_len": int(ih.shape[0])}, {"hist_len": int(m.shape[0]) - 1})
+                return
+            scale = max(float(np.max(np.abs(ih))), fl0, 1e-300)
+            err = max(float(np.max(np.abs(m[1:] - ih))), abs(m[0] - impl[1][j0, 0]))
+            _room(ctx, "xcol0", err / (1e-9 * scale))
+            if err > 1e-9 * scale:
+                ctx.disagree("xcol0", dict(inp, freq_index=j0, column=0), {"sh": float(impl[1][j0, 0]), "hist": ih.tolist()[:4]},
+                             {"sh": float(m[0]), "hist": m[1:5].tolist()})
+
+        add([line], cb)
+
+    # ---- stream resid (closed-form free decay after the record) vs time='residual' histories ---------------------
+    for st in STYPES:
+        for i in range(ctx.pick(6, 30)):
+            Q, sr, fn = _rand_params(rng, hi=300.0)
+            freqs = [fn] if i % 2 else [fn, fn * 0.37]
+            n = int(rng.choice([1, 2, 9, 50]))
+            sig = _rand_sig(rng, n, 1)[:, 0]
+            impl = _call_srs(srs, sig, sr, freqs, Q, st, "zero", "abs", "residual", False)
+            line = "resid %s %s %s %d %s %s %s" % (st, _bits(Q), _bits(sr), len(freqs), _fl(freqs), _bits(fn), _fl(sig))
+
+            def cb(reps, impl=impl, st=st, Q=Q, sr=sr, fn=fn, freqs=freqs, sig=sig):
+                inp = _case_dict(sig, sr, freqs, Q, st, "zero", "abs", "residual", False)
+                ctx.case(("resid", st, Q, sr, fn, sig.tobytes()), nontrivial=True, branch="resid:" + st)
+                if impl[0] != "ok":
+                    ctx.disagree("resid", inp, impl, reps[0][:60])
+                    return
+                m = _parse(reps[0])
+                ih = impl[2][:, 0, 0]
+                scale = max(float(np.max(np.abs(ih))), _floors(st, sig.reshape(-1, 1), sr, [fn], Q, False)[(0, 0)], 1e-300)
+                if m.shape != ih.shape or not np.all(np.isfinite(m)):
+                    ctx.disagree("resid", inp, {"len": int(ih.shape[0])}, {"len": int(m.shape[0])})
+                    return
+                _room(ctx, "resid", np.max(np.abs(m - ih)) / (1e-7 * scale))
+                if np.max(np.abs(m - ih)) > 1e-7 * scale:
+                    k = int(np.argmax(np.abs(m - ih)))
+                    ctx.disagree("resid", inp, {"k": k, "hist": float(ih[k])}, {"k": k, "hist": float(m[k])})
+
+            add([line], cb)
+
     # ---- stream vrs (area weights + transmissibility; psd.interp's output is fed to both sides) ------
     import warnings
 
@@ -553,6 +805,10 @@ def correspondence(ctx):
         else:
             freq = np.sort(rng.uniform(20.0, 2000.0, [1, 2, 3][(i // 4) % 3]))
         Fn = None if (i // 4) % 2 == 0 else np.sort(rng.uniform(30.0, 1500.0, int(rng.integers(1, 5))))
+        if Fn is not None and len(freq) > 3 and i % 3 != 0:
+            # some Fn are members of freq, one value twice: np.unique must drop the duplicates
+            Fn = np.sort(np.hstack((Fn, freq[rng.integers(1, len(freq) - 1, 2)], Fn[:1])))
+            ctx.count("vrs:Fn-on-grid")
         getresp = bool(rng.integers(0, 2))
         try:
             with warnings.catch_warnings():
@@ -567,6 +823,37 @@ def correspondence(ctx):
         sel = list(range(len(fns))) if len(fns) <= 8 else sorted(set(int(v) for v in rng.integers(0, len(fns), 8)))
         body = " ".join("%s %s" % (_bits(f), _bits(v)) for f, v in zip(grid, pfull))
         lines = ["vrs %s %s %s" % (_bits(Qv), _bits(fns[k]), body) for k in sel]
+        # merged integration grid (exact) and Miles' value, from a getresp=True call
+        try:
+            with warnings.catch_warnings():
+                warnings.simplefilter("ignore")
+                _, zm, rr = srs.vrs((Fs, Pp), freq, Qv, linear=lin, Fn=Fn, getresp=True)
+            gimpl = np.asarray(rr["f"], float)
+            zm = np.asarray(zm, float)
+        except (IndexError, ValueError):
+            gimpl = zm = None
+        if gimpl is not None:
+            pidx = np.searchsorted(grid, fns)
+            msel = sel[:3]
+            glines = ["grid %d %s %s" % (len(freq), _fl(freq), _fl(Fn) if Fn is not None else "")] + \
+                     ["miles %s %s %s" % (_bits(Qv), _bits(fns[k]), _bits(pfull[pidx[k]])) for k in msel]
+
+            def cbg(reps, gimpl=gimpl, zm=zm, msel=msel, freq=freq, Fn=Fn, gk=gk, Qv=Qv, lin=lin, Pp=Pp):
+                inp = {"kind": "vrs", "spec_f": Fs.tolist(), "spec_p": Pp.tolist(), "linear": lin, "grid": gk if gk != "short" else "random",
+                       "Fn": None if Fn is None else Fn.tolist(), "freq": freq.tolist(), "Q": Qv}
+                ctx.case(("vrsgrid", freq.tobytes(), None if Fn is None else Fn.tobytes()), nontrivial=Fn is not None, branch="vrs:grid")
+                mg = _parse(reps[0])
+                if mg.shape != gimpl.shape or not np.array_equal(mg, gimpl):
+                    ctx.disagree("vrs-grid", inp, gimpl.tolist()[:8], mg.tolist()[:8])
+                    return
+                for k, rep in zip(msel, reps[1:]):
+                    ctx.count("vrs:miles")
+                    m = _unbits(rep)
+                    if not abs(m - zm[k]) <= 1e-12 * abs(zm[k]):
+                        ctx.disagree("vrs-miles", dict(inp, Fn_index=int(k)), float(zm[k]), m)
+                        return
+
+            add(glines, cbg)
 
         def cb(reps, impl=impl, sel=sel, fns=fns, gk=gk, Fn=Fn, freq=freq, Pp=Pp, Qv=Qv, lin=lin):
             inp = {"kind": "vrs", "spec_f": Fs.tolist(), "spec_p": Pp.tolist(), "linear": lin, "grid": gk if gk != "short" else "random",
@@ -602,7 +889,15 @@ def correspondence(ctx):
         + ["time:" + s for s in TIMES] + ["eqsine:True", "eqsine:False", "packaging:1-D", "samples:1", "samples:>1",
                                           "freq:0Hz", "error:empty-record", "error:empty-residual-window"]
         + ["rolloff:%s:resampled:%s" % (r, t) for r in ROLLS for t in TIMES] + ["exact:" + s for s in STYPES]
-        + ["vrs:uniform", "vrs:log", "vrs:random", "vrs:uniform+Fn", "vrs:log+Fn", "vrs:random+Fn", "vrs:raises"]
+        + ["vrs:uniform", "vrs:log", "vrs:random", "vrs:uniform+Fn", "vrs:log+Fn", "vrs:random+Fn", "vrs:raises",
+           "vrs:grid", "vrs:miles", "vrs:Fn-on-grid"]
+        + ["exact0:" + s for s in STYPES] + ["steady:" + s for s in STYPES] + ["resid:" + s for s in STYPES]
+        + ["xcol:stype:" + s for s in STYPES] + ["xcol:ic:" + s for s in ICS] + ["xcol:time:" + s for s in TIMES]
+        + ["xcol:peak:" + s for s in PEAKS] + ["xcol0:" + s for s in STYPES] + ["xcol0:time:" + s for s in TIMES]
+        + ["index:%s:%s:%s" % (r, g, t) for r in ("linear", "fft", "lanczos") for g in ("triggered", "boundary-eq", "not-needed")
+           for t in TIMES]
+        + ["index:%s:no-resampler:%s" % (r, t) for r in ("none", "prefilter") for t in TIMES]
+        + ["index:N=1", "index:N=2", "index:N=>2", "index:raises"]
     )
 
 
@@ -622,30 +917,46 @@ def _shift(sig2d, ic):
     return sig2d - sig2d[0]
 
 
-def _upsample(sg, sr, roll, mf, ppc=12):
+class _ShortPrefilter(Exception):
+    pass
+
+
+def _upsample(sg, sr, roll, mf, ppc=12, as_built=True):
     """the documented roll-off resampling, called on the library routines directly (not through
-    srs.linroll/lanroll/fftroll/preroll): -> (signal, sample rate).  The resamplers' own
-    contract is C19; here only *where* srs applies them and what it does afterwards matters."""
+    srs.linroll/lanroll/fftroll/preroll): -> (signal, sample rate, factor).  The decision (resample
+    iff the minimum points per cycle is *not met*: sr/mf < ppc, strictly) and the factor are computed
+    in exact rational arithmetic.  The resamplers' own contract is C19; here only *where* srs applies
+    them and what it does afterwards matters.  `as_built=False` (linear only): the piecewise-linear
+    interpolant of the record evaluated on the grid k/(sr*factor) the result is labelled with, i.e.
+    (N-1)*factor+1 points; `as_built=True`: linroll's np.linspace(0, t_last, N*factor-1) grid (the two
+    coincide for factor 2 only, see finding srs-rolloff-linear)."""
+    from fractions import Fraction
+
     from scipy import signal as sps
 
-    if roll == "prefilter":
-        return sps.filtfilt(np.array([0.8767, 1.7533, 0.8767]), np.array([1, 1.6296, 0.8111, 0.0659]), sg, axis=0), sr
     N = sg.shape[0]
-    if roll == "none" or mf == 0 or not (sr / mf < ppc) or N <= 1:
-        return sg, sr
-    factor = int(math.ceil(ppc / (sr / mf)))
+    if roll == "prefilter":
+        if N <= 12:  # scipy.signal.filtfilt: the record must be longer than padlen = 12
+            raise _ShortPrefilter()
+        return sps.filtfilt(np.array([0.8767, 1.7533, 0.8767]), np.array([1, 1.6296, 0.8111, 0.0659]), sg, axis=0), sr, 1
+    if roll == "none" or mf == 0 or N <= 1 or not (Fraction(sr) / Fraction(mf) < Fraction(ppc)):
+        return sg, sr, 1
+    factor = int(math.ceil(Fraction(ppc) * Fraction(mf) / Fraction(sr)))
     if roll == "linear":
         told = np.arange(N) / sr
-        tnew = np.linspace(0.0, told[-1], N * factor - 1)
-        return np.column_stack([np.interp(tnew, told, sg[:, c]) for c in range(sg.shape[1])]), sr * factor
+        if as_built:
+            tnew = np.linspace(0.0, told[-1], N * factor - 1)
+        else:
+            tnew = np.arange((N - 1) * factor + 1) / (sr * factor)
+        return np.column_stack([np.interp(tnew, told, sg[:, c]) for c in range(sg.shape[1])]), sr * factor, factor
     if roll == "fft":
         if N & 1:
-            return sps.resample(sg[:-1], factor * (N - 1), axis=0), sr * factor
-        return sps.resample(sg, factor * N, axis=0), sr * factor
+            return sps.resample(sg[:-1], factor * (N - 1), axis=0), sr * factor, factor
+        return sps.resample(sg, factor * N, axis=0), sr * factor, factor
     if roll == "lanczos":
         from pyyeti import dsp
 
-        return dsp.resample(sg, factor, 1, pts=65, axis=0), sr * factor
+        return dsp.resample(sg, factor, 1, pts=65, axis=0), sr * factor, factor
     raise ValueError(roll)
 
 
@@ -719,9 +1030,12 @@ def _oracle_srs(case):
     sr, freqs, Q = case["sr"], case["freq"], case["Q"]
     st, ic, pk, tm, es = case["stype"], case["ic"], case["peak"], case["time"], case["eqsine"]
     roll = case.get("rolloff", "none")
-    res = _call_srs(srs, sig, sr, freqs, Q, st, ic, pk, tm, es, rolloff=roll)
+    ppc = case.get("ppc", 12)
+    res = _call_srs(srs, sig, sr, freqs, Q, st, ic, pk, tm, es, rolloff=roll, ppc=ppc)
     inp = dict(case)
     rtag = "" if roll == "none" else ":rolloff=" + roll
+    if res[0] == "raise" and roll == "prefilter" and np.atleast_1d(sig).shape[0] <= 12:
+        return fails  # scipy.signal.filtfilt refuses records of <= 12 samples (reported as an observation, not a failure)
     if res[0] == "raise":
         fails.append({"family": "srs-raises:%s:ic=%s:time=%s%s" % (st, ic, tm, rtag), "what": "srs.srs raises " + res[1],
                       "input": inp, "observed": res[1], "required": "a spectrum"})
@@ -730,7 +1044,8 @@ def _oracle_srs(case):
     sig2d = sig.reshape(-1, 1) if sig.ndim == 1 else sig
     H = sig2d.shape[1]
     # the record the oscillators see: ic rule, then the roll-off resampling at the (new) rate sr
-    sg, sr = _upsample(_shift(sig2d, ic), sr, roll, max(freqs))
+    sr_in = sr
+    sg, sr, factor = _upsample(_shift(sig2d, ic), sr, roll, max(freqs), ppc)
     N = sg.shape[0]
     pos = [f for f in freqs if f > 0]
     nz = int(math.ceil(sr / min(pos))) if (pos and tm != "primary") else 0
@@ -775,6 +1090,25 @@ def _oracle_srs(case):
                               "what": "spectrum value is not the stated peak statistic of the returned history",
                               "input": dict(inp, freq_index=j, column=c), "observed": float(sh[j, c]), "required": want})
                 return fails
+    if roll == "linear" and factor >= 3:
+        # finding: linroll evaluates the interpolant on np.linspace(0, t_last, N*factor - 1), which has the spacing
+        # 1/(sr*factor) only for factor = 2; the result is nevertheless labelled with sr*factor
+        sgc = _upsample(_shift(sig2d, ic), sr_in, roll, max(freqs), ppc, as_built=False)[0]
+        Nc = sgc.shape[0]
+        lens = {"primary": Nc, "total": Nc + nz, "residual": nz}[tm]
+        dev = None
+        if tm != "residual" and all(f > 0 for f in freqs):
+            ex = _exact_history(sgc[:, 0], sig2d[0, 0], sr, freqs[0], Q, ic, nz)[st] / (Q if es else 1.0)
+            m = min(len(ex), hist.shape[0])
+            dev = float(np.max(np.abs(hist[:m, 0, 0] - ex[:m])) / max(float(np.max(np.abs(ex))), 1e-300))
+        if hist.shape[0] != lens or (dev is not None and dev > 1e-6):
+            fails.append({"family": "srs-rolloff-linear:factor>=3:time-grid",
+                          "what": "rolloff='linear' with an up-sampling factor >= 3: the record is interpolated on a grid of N*factor-1 "
+                                  "points spanning [0, (N-1)/sr], whose spacing is not 1/(sr*factor); the history is not the response to "
+                                  "the linearly interpolated record at the times resp['t']",
+                          "input": inp,
+                          "observed": {"factor": factor, "primary_samples": int(N), "max_rel_deviation_from_exact": dev},
+                          "required": {"factor": factor, "primary_samples": int(Nc), "max_rel_deviation_from_exact": 0.0}})
     return fails
 
 
@@ -982,6 +1316,8 @@ def _hint_cases(hints, rng):
         if inp.get("kind") == "srs":
             c = {k: inp[k] for k in ("kind", "sig", "sr", "freq", "Q", "stype", "ic", "peak", "time", "eqsine")}
             c["rolloff"] = inp.get("rolloff", "none")
+            if "ppc" in inp:
+                c["ppc"] = inp["ppc"]
             if len(np.asarray(c["sig"]).reshape(-1)) == 0:
                 continue
             out.append(c)
@@ -992,9 +1328,25 @@ def _hint_cases(hints, rng):
     return out
 
 
+def _corpus(ctx):
+    """minimised past failures / boundary inputs (corpus/c03.json), run first"""
+    import json
+    import os
+
+    path = os.path.join(ctx.verif, "corpus", "c03.json")
+    if not os.path.exists(path):
+        return []
+    out = []
+    for c in json.load(open(path)):
+        c = dict(c)
+        c.pop("note", None)
+        out.append(c)
+    return out
+
+
 def search(ctx, hints):
     rng = ctx.np_rng(11)
-    cases = _hint_cases(hints, rng)
+    cases = _corpus(ctx) + _hint_cases(hints, rng)
     # base stream: every stype x ic x time with a random peak, seeded records
     reps = ctx.pick(3, 12)
     for r in range(reps):
@@ -1039,6 +1391,9 @@ def search(ctx, hints):
                       "freq": np.arange(20.0, 2000.0, float(rng.choice([0.5, 1.0, 2.0]))).tolist(), "Q": Qv})
         cases.append({"kind": "vrs", "spec_f": F.tolist(), "spec_p": Pp, "linear": lin, "grid": "log", "Fn": offgrid,
                       "freq": np.geomspace(20.0, 2000.0, int(rng.choice([700, 1500, 2500]))).tolist(), "Q": Qv})
+        ug = np.arange(20.0, 2000.0, 2.0)
+        cases.append({"kind": "vrs", "spec_f": F.tolist(), "spec_p": Pp, "linear": lin, "grid": "uniform",
+                      "Fn": sorted(offgrid + ug[rng.integers(5, 400, 2)].tolist() + offgrid[:1]), "freq": ug.tolist(), "Q": Qv})
         cases.append({"kind": "vrs", "spec_f": F.tolist(), "spec_p": Pp, "linear": lin, "grid": "random", "Fn": None,
                       "freq": np.unique(np.hstack(([20.0, 2000.0], rng.uniform(20.0, 2000.0, 1500)))).tolist(), "Q": Qv})
     # roll-off: every resampler x every window, resampling triggered (sr / max(freq) < ppc)
@@ -1052,9 +1407,19 @@ def search(ctx, hints):
                 freqs = [mf * float(rng.uniform(0.15, 0.9)), mf][: 1 + int(rng.integers(0, 2))][::-1]
                 if mf not in freqs:
                     freqs = [mf]
-                sig = _rand_sig(rng, int(rng.choice([40, 64, 97])), int(rng.integers(1, 3)))
+                sig = _rand_sig(rng, int(rng.choice([40, 64, 97] if roll == "prefilter" else [40, 64, 97, 2, 3, 13])),
+                                int(rng.integers(1, 3)))
                 cases.append(_case_dict(sig, sr, freqs, float(rng.choice([5.0, 10.0, 25.0, 50.0])), st, ic,
                                         PEAKS[int(rng.integers(0, 6))], tm, bool(rng.integers(0, 2)), rolloff=roll))
+            if roll != "prefilter":
+                # ppc other than the default; sr/max(freq) exactly equal to ppc (the minimum is met: no resampling)
+                # and one ulp below it; a one-sample and a two-sample record
+                st = STYPES[int(rng.integers(0, 6))]
+                for sr, freqs, ppc, n in ((120.0, [10.0, 2.5], 12.0, 30), (120.0, [10.000000000000002, 2.5], 12.0, 30),
+                                          (48.0, [12.0, 1.5], 4.0, 17), (200.0, [45.0, 11.0], 25.0, 2), (200.0, [45.0], 8.0, 1),
+                                          (1000.0, [300.0, 40.0], 12.5, 24)):
+                    cases.append(_case_dict(_rand_sig(rng, n, 1), sr, freqs, 10.0, st, ICS[int(rng.integers(0, 4))], "abs", tm, False,
+                                            rolloff=roll, ppc=ppc))
     for case in cases:
         ctx.count("oracle:" + case["kind"] + (":rolloff" if case.get("rolloff", "none") != "none" else "")
                   + (":" + case["grid"] + ("+Fn" if case.get("Fn") else "") if case["kind"] == "vrs" else ""))
